@@ -1,10 +1,12 @@
 (* C11 — GCS: listing and pagination (memory store: names strictly ascending, no directories).
-   Full theorem without delimiter; with a delimiter only the page-size bound and soundness.
+   Full theorems without and with a delimiter (GCS-1 repaired: the page token is the last item OR
+   collapsed prefix of the page, names below a prefix already on the page take no room, and a page
+   resumed from a prefix token skips the names below it).
    Only statements here; proofs are in GCS/ListingProofs.v. *)
 From Coq Require Import List NArith ZArith Bool Sorted.
 Import ListNotations.
 From Emu.Common Require Import Bytes Str StrProofs.
-From Emu.GCS Require Import Model UploadProofs ListingProofs.
+From Emu.GCS Require Import Model UploadProofs Oracles ListingProofs.
 
 (* the early abort of the walk: in an ascending list, once an entry is beyond the prefix range
    all later ones are, and none of them has the prefix *)
@@ -15,12 +17,14 @@ Proof. exact prefix_abort_sound. Qed.
 Print Assumptions C11_prefix_abort_sound.
 
 (* (i) one page without delimiter = the first maxResults names that are after the cursor and
-   have the prefix; moreResults iff there are more than maxResults of them *)
+   have the prefix; moreResults iff there are more than maxResults of them; the last entry of the
+   page (the token when moreResults) is its last name *)
 Theorem C11_page_spec : forall cursor prefix maxres names,
   StronglySorted lex_lt names ->
   list_walk [] cursor prefix maxres (ents names)
   = (firstn maxres (filter (sel cursor prefix) names), [],
-     (maxres <? length (filter (sel cursor prefix) names))%nat).
+     (maxres <? length (filter (sel cursor prefix) names))%nat,
+     last_opt (firstn maxres (filter (sel cursor prefix) names))).
 Proof. exact page_spec. Qed.
 Print Assumptions C11_page_spec.
 
@@ -28,7 +32,8 @@ Theorem C11_page_spec_bucket : forall cursor prefix maxres (bk : bucket),
   asorted bk ->
   list_walk [] cursor prefix maxres (mem_entries bk)
   = (firstn maxres (filter (sel cursor prefix) (map fst bk)), [],
-     (maxres <? length (filter (sel cursor prefix) (map fst bk)))%nat).
+     (maxres <? length (filter (sel cursor prefix) (map fst bk)))%nat,
+     last_opt (firstn maxres (filter (sel cursor prefix) (map fst bk)))).
 Proof. exact page_spec_bucket. Qed.
 Print Assumptions C11_page_spec_bucket.
 
@@ -45,7 +50,7 @@ Print Assumptions C11_paginate_complete_nodup_sorted.
 
 (* (iii) any delimiter, any entries (directories included): items + prefixes <= maxResults *)
 Theorem C11_page_size_bound : forall delim cursor prefix maxres entries,
-  let '(found, prefixes, more) := list_walk delim cursor prefix maxres entries in
+  let '(found, prefixes, more, last) := list_walk delim cursor prefix maxres entries in
   (length found + length prefixes <= maxres)%nat.
 Proof. exact page_size_bound. Qed.
 Print Assumptions C11_page_size_bound.
@@ -53,7 +58,7 @@ Print Assumptions C11_page_size_bound.
 (* any delimiter: every item is an entry after the cursor with the prefix; every returned prefix
    is an initial segment of such an entry *)
 Theorem C11_page_sound : forall delim cursor prefix maxres entries,
-  let '(found, prefixes, more) := list_walk delim cursor prefix maxres entries in
+  let '(found, prefixes, more, last) := list_walk delim cursor prefix maxres entries in
   Forall (found_sound cursor prefix entries) found /\ Forall (prefix_sound cursor prefix entries) prefixes.
 Proof. exact page_sound. Qed.
 Print Assumptions C11_page_sound.
@@ -74,34 +79,218 @@ Theorem C11_handle_list_page : forall s b prefix cursor ms m bk,
 Proof. exact handle_list_page. Qed.
 Print Assumptions C11_handle_list_page.
 
+(* the handler for ANY delimiter: the response is the page of the walk over the bucket's names,
+   and the token is the walk's last entry (item or collapsed prefix) iff there are more results *)
+Theorem C11_handle_list_walk : forall s b prefix delim cursor ms m bk,
+  parse_int ms = Some m -> (1 <= m)%Z -> get_bucket s b = Some bk -> asorted bk ->
+  let cur := match cursor with Some c => c | None => [] end in
+  let '(found, prefixes, more, last) := list_walk delim cur prefix (Z.to_nat m) (ents (map fst bk)) in
+  exists items,
+    handle s (RList b prefix delim cursor (Some ms))
+    = (s, mkResp 200 (BList items prefixes (if more then last else None)))
+    /\ map v_name items = found
+    /\ Forall (fun v => v_bucket v = b /\ exists o, alookup (v_name v) bk = Some o /\ v = view b (v_name v) o) items.
+Proof. exact handle_list_walk. Qed.
+Print Assumptions C11_handle_list_walk.
+
 (* buckets of reachable states are sorted (state_ok is an invariant, see C02) *)
 Theorem C11_reachable_bucket_sorted : forall rs b bk,
   get_bucket (fst (run init_state rs)) b = Some bk -> asorted bk.
 Proof. exact reachable_bucket_sorted. Qed.
 Print Assumptions C11_reachable_bucket_sorted.
 
-(* FINDING: with a delimiter, following the tokens loses entries (token = last item name only) *)
-Theorem C11_paginate_with_delimiter_refuted :
+(* (iv) one page with ANY delimiter and ANY cursor: the first maxResults entries — items, and each
+   collapsed prefix once — of the names the cursor lets through; moreResults iff a further entry
+   exists; last = the key of the last entry on the page *)
+Theorem C11_page_delim_spec : forall delim cursor prefix maxres names,
+  StronglySorted lex_lt names ->
+  let E := evk [] (map (tkey delim prefix) (filter (keep delim cursor prefix) names)) in
+  let pg := firstn maxres E in
+  list_walk delim cursor prefix maxres (ents names)
+  = (ev_items pg, ev_prefixes pg, (maxres <? length E)%nat, ev_last pg None).
+Proof. exact page_delim_spec. Qed.
+Print Assumptions C11_page_delim_spec.
+
+(* resuming from the key of an entry (an item name or a collapsed prefix) lets through exactly the
+   names whose key is greater: nothing below a prefix token is listed again, nothing after it is lost *)
+Theorem C11_keep_key : forall delim prefix c n,
+  good_cursor delim prefix c -> has_prefix n prefix = true ->
+  keep delim c prefix n = lex_ltb c (fst (tkey delim prefix n)).
+Proof. exact keep_key. Qed.
+Print Assumptions C11_keep_key.
+
+(* names below one collapsed prefix are contiguous in an ascending list: the key is monotone *)
+Theorem C11_tkey_mono : forall delim prefix n m,
+  has_prefix n prefix = true -> has_prefix m prefix = true -> lex_lt n m ->
+  kle (tkey delim prefix n) (tkey delim prefix m).
+Proof. exact tkey_mono. Qed.
+Print Assumptions C11_tkey_mono.
+
+(* (v) MAIN THEOREM, GCS-1 repaired: ascending names, any prefix, ANY delimiter, maxResults >= 1.
+   Following the page tokens from the empty cursor (fuel S (length names) suffices: the chain of
+   tokens ends) yields exactly the expected listing (Oracles.expected_listing: matching names that
+   do not collapse; distinct collapsed prefixes in order of first occurrence) — nothing lost,
+   nothing repeated across pages — in pages of at most maxResults entries.  The empty name is the
+   only name not listed (a listing without token starts strictly after ""). *)
+Theorem C11_paginate_with_delimiter_complete : forall prefix delim maxres names,
+  StronglySorted lex_lt names -> (1 <= maxres)%nat ->
+  let pages := follow_delim (S (length names)) names prefix delim [] maxres in
+  let expected := expected_listing (nonempty_names names) prefix delim in
+  all_items pages = fst expected
+  /\ all_prefixes pages = snd expected
+  /\ Forall (fun pg => (length (pg_items pg) + length (pg_prefixes pg) <= maxres)%nat) pages
+  /\ tokens_end pages
+  /\ StronglySorted lex_lt (all_items pages) /\ StronglySorted lex_lt (all_prefixes pages)
+  /\ NoDup (all_items pages) /\ NoDup (all_prefixes pages).
+Proof. exact paginate_with_delimiter_complete. Qed.
+Print Assumptions C11_paginate_with_delimiter_complete.
+
+(* against the listing of ALL names, with the exact guard: no object named "" unless the query
+   prefix is non-empty *)
+Theorem C11_paginate_with_delimiter_complete_partial : forall prefix delim maxres names,
+  StronglySorted lex_lt names -> (1 <= maxres)%nat ->
+  (In [] names -> prefix <> []) ->
+  let pages := follow_delim (S (length names)) names prefix delim [] maxres in
+  let expected := expected_listing names prefix delim in
+  all_items pages = fst expected
+  /\ all_prefixes pages = snd expected
+  /\ Forall (fun pg => (length (pg_items pg) + length (pg_prefixes pg) <= maxres)%nat) pages
+  /\ tokens_end pages
+  /\ StronglySorted lex_lt (all_items pages) /\ StronglySorted lex_lt (all_prefixes pages)
+  /\ NoDup (all_items pages) /\ NoDup (all_prefixes pages).
+Proof. exact paginate_with_delimiter_complete_partial. Qed.
+Print Assumptions C11_paginate_with_delimiter_complete_partial.
+
+(* the same at the handler: a client following nextPageToken on a sorted bucket (every bucket of a
+   reachable state, C11_reachable_bucket_sorted) receives exactly the expected listing, once *)
+Theorem C11_handle_pagination_complete : forall s b prefix delim ms m bk,
+  parse_int ms = Some m -> (1 <= m)%Z -> get_bucket s b = Some bk -> asorted bk ->
+  let pages := follow_handle (S (length bk)) s b prefix delim None ms in
+  let expected := expected_listing (nonempty_names (map fst bk)) prefix delim in
+  all_items pages = fst expected
+  /\ all_prefixes pages = snd expected
+  /\ Forall (fun pg => (length (pg_items pg) + length (pg_prefixes pg) <= Z.to_nat m)%nat) pages
+  /\ tokens_end pages
+  /\ NoDup (all_items pages) /\ NoDup (all_prefixes pages).
+Proof. exact handle_pagination_complete. Qed.
+Print Assumptions C11_handle_pagination_complete.
+
+(* the guard is needed: bucket {"", "a"}, prefix "", delimiter "/" *)
+Theorem C11_paginate_with_delimiter_full_refuted :
+  let names := [[]; [97]]%N in
+  StronglySorted lex_lt names
+  /\ follow_delim (S (length names)) names [] [47]%N [] 5 = [mkLpage [[97]%N] [] None]
+  /\ expected_listing names [] [47]%N = ([[]; [97]]%N, []).
+Proof. exact paginate_with_delimiter_full_refuted. Qed.
+Print Assumptions C11_paginate_with_delimiter_full_refuted.
+
+(* what the OLD token rule did (GCS-1): names a/1, a/2, b/1, delimiter "/", pages of one — the
+   first page is the prefix a/ WITHOUT token, b/ is never returned; names a, b/1, b/2, c, pages of
+   two — token "a", the second page repeats b/ and loses c.  The new rule returns everything once. *)
+Theorem C11_old_token_rule_refuted :
+  let names := [[97; 47; 49]; [97; 47; 50]; [98; 47; 49]]%N in
+  let names2 := [[97]; [98; 47; 49]; [98; 47; 50]; [99]]%N in
+  old_page [47]%N [] [] 1 names = mkLpage [] [[97; 47]%N] None
+  /\ expected_listing names [] [47]%N = ([], [[97; 47]; [98; 47]]%N)
+  /\ follow_delim (S (length names)) names [] [47]%N [] 1
+     = [mkLpage [] [[97; 47]%N] (Some [97; 47]%N); mkLpage [] [[98; 47]%N] None]
+  /\ old_page [47]%N [] [] 2 names2 = mkLpage [[97]%N] [[98; 47]%N] (Some [97]%N)
+  /\ old_page [47]%N [97]%N [] 2 names2 = mkLpage [] [[98; 47]%N] None
+  /\ follow_delim (S (length names2)) names2 [] [47]%N [] 2
+     = [mkLpage [[97]%N] [[98; 47]%N] (Some [98; 47]%N); mkLpage [[99]%N] [] None].
+Proof. exact old_token_rule_refuted. Qed.
+Print Assumptions C11_old_token_rule_refuted.
+
+(* the former GCS-1 witness at the handler now lists everything once *)
+Theorem C11_paginate_with_delimiter_handler_example :
   let cp := mkCP (PRaw []) (PRaw []) (PRaw []) (PRaw []) in
   let bk := [98]%N in
   let up n := RUploadMedia bk n [116]%N [1]%N cp in
   let s := fst (run init_state [up [97]%N; up [98; 47; 49]%N; up [98; 47; 50]%N; up [99]%N]) in
-  list_proj (snd (handle s (RList bk [] [47]%N None (Some [50]%N)))) = ([[97]%N], [[98; 47]%N], Some [97]%N)
-  /\ list_proj (snd (handle s (RList bk [] [47]%N (Some [97]%N) (Some [50]%N)))) = ([], [[98; 47]%N], None)
-  /\ find_obj s bk [99]%N <> None /\ sel [] [] [99]%N = true /\ has_prefix [99]%N [98; 47]%N = false.
-Proof. exact paginate_with_delimiter_refuted. Qed.
-Print Assumptions C11_paginate_with_delimiter_refuted.
+  list_proj (snd (handle s (RList bk [] [47]%N None (Some [50]%N)))) = ([[97]%N], [[98; 47]%N], Some [98; 47]%N)
+  /\ list_proj (snd (handle s (RList bk [] [47]%N (Some [98; 47]%N) (Some [50]%N)))) = ([[99]%N], [], None)
+  /\ follow_handle 5 s bk [] [47]%N None [50]%N
+     = [mkLpage [[97]%N] [[98; 47]%N] (Some [98; 47]%N); mkLpage [[99]%N] [] None].
+Proof. exact paginate_with_delimiter_handler_example. Qed.
+Print Assumptions C11_paginate_with_delimiter_handler_example.
 
-(* FINDING: an object named "" (accepted by the multipart upload) is never listed *)
-Theorem C11_empty_name_never_listed_witness :
+(* an upload without object name is refused with 400 by all three upload paths, in every state,
+   and changes nothing *)
+Theorem C11_empty_name_rejected : forall s,
+  (forall b ct data cp, handle s (RUploadMedia b [] ct data cp) = (s, err 400))
+  /\ (forall b m data cp, um_name m = [] -> handle s (RUploadMultipart b m data cp) = (s, err 400))
+  /\ (forall b bad m cp, um_name m = [] -> handle s (RResumableInit b bad m cp) = (s, err 400)).
+Proof. exact empty_name_rejected. Qed.
+Print Assumptions C11_empty_name_rejected.
+
+(* compose and copy refuse a destination name that parses to "" likewise *)
+Theorem C11_empty_destination_rejected : forall s,
+  (forall b dst bad srcs dm cp, compose_dst dst = Some [] ->
+     handle s (RCompose b dst bad srcs dm cp) = (s, err 400))
+  /\ (forall b1 n1 b2 n2, copy_dst n1 b2 n2 = Some [] ->
+     handle s (RCopy b1 n1 b2 n2) = (s, err 400)).
+Proof. exact empty_destination_rejected. Qed.
+Print Assumptions C11_empty_destination_rejected.
+
+(* the invariant "no stored object (and no resumable session's object) has the empty name" is kept
+   by EVERY request *)
+Theorem C11_names_ok_preserved : forall s r, names_ok s -> names_ok (fst (handle s r)).
+Proof. exact names_ok_preserved. Qed.
+Print Assumptions C11_names_ok_preserved.
+
+(* no bucket of a reachable state holds the empty name *)
+Theorem C11_reachable_names_nonempty : forall rs b bk,
+  get_bucket (fst (run init_state rs)) b = Some bk -> ~ In [] (map fst bk).
+Proof. exact reachable_names_nonempty. Qed.
+Print Assumptions C11_reachable_names_nonempty.
+
+(* (vi) the listing theorem on reachable states, at full strength: every history, every bucket,
+   any prefix, ANY delimiter, maxResults >= 1 — following the tokens yields exactly the expected
+   listing of ALL the bucket's names *)
+Theorem C11_paginate_reachable_complete : forall rs b bk prefix delim maxres,
+  get_bucket (fst (run init_state rs)) b = Some bk -> (1 <= maxres)%nat ->
+  let names := map fst bk in
+  let pages := follow_delim (S (length names)) names prefix delim [] maxres in
+  let expected := expected_listing names prefix delim in
+  all_items pages = fst expected
+  /\ all_prefixes pages = snd expected
+  /\ Forall (fun pg => (length (pg_items pg) + length (pg_prefixes pg) <= maxres)%nat) pages
+  /\ tokens_end pages
+  /\ StronglySorted lex_lt (all_items pages) /\ StronglySorted lex_lt (all_prefixes pages)
+  /\ NoDup (all_items pages) /\ NoDup (all_prefixes pages).
+Proof. exact paginate_reachable_complete. Qed.
+Print Assumptions C11_paginate_reachable_complete.
+
+(* the same for a client following nextPageToken through the handler *)
+Theorem C11_handle_pagination_reachable : forall rs b bk prefix delim ms m,
+  let s := fst (run init_state rs) in
+  get_bucket s b = Some bk -> parse_int ms = Some m -> (1 <= m)%Z ->
+  let pages := follow_handle (S (length bk)) s b prefix delim None ms in
+  let expected := expected_listing (map fst bk) prefix delim in
+  all_items pages = fst expected
+  /\ all_prefixes pages = snd expected
+  /\ Forall (fun pg => (length (pg_items pg) + length (pg_prefixes pg) <= Z.to_nat m)%nat) pages
+  /\ tokens_end pages
+  /\ NoDup (all_items pages) /\ NoDup (all_prefixes pages).
+Proof. exact handle_pagination_reachable. Qed.
+Print Assumptions C11_handle_pagination_reachable.
+
+(* non-vacuity of the reachable-state theorems: uploads, a compose, a copy, and the two requests
+   that used to store "" (now 400); the bucket and its listing through the handler *)
+Example C11_reachable_nonvacuous :
   let cp := mkCP (PRaw []) (PRaw []) (PRaw []) (PRaw []) in
   let bk := [98]%N in
-  let r := RUploadMultipart bk (mkUpMeta [] [116]%N 0 []) [1]%N cp in
-  r_status (snd (handle init_state r)) = 200%Z
-  /\ r_status (snd (handle (fst (handle init_state r)) (RGetMedia bk []))) = 200%Z
-  /\ list_proj (snd (handle (fst (handle init_state r)) (RList bk [] [] None None))) = ([], [], None).
-Proof. exact empty_name_never_listed_witness. Qed.
-Print Assumptions C11_empty_name_never_listed_witness.
+  let rs := [RUploadMedia bk [97; 47; 49]%N [116]%N [1]%N cp;
+             RUploadMultipart bk (mkUpMeta [99]%N [116]%N 0 []) [2]%N cp;
+             RCompose bk [97; 47; 50]%N false [([99]%N, PRaw [])] None cp;
+             RCopy bk [99]%N bk [100]%N;
+             RCompose bk [] false [] None cp;
+             RCopy bk [99]%N bk []] in
+  map r_status (snd (run init_state rs)) = [200; 200; 200; 200; 400; 400]%Z
+  /\ option_map (map fst) (get_bucket (fst (run init_state rs)) bk) = Some [[97; 47; 49]; [97; 47; 50]; [99]; [100]]%N
+  /\ follow_handle 5 (fst (run init_state rs)) bk [] [47]%N None [49]%N
+     = [mkLpage [] [[97; 47]%N] (Some [97; 47]%N); mkLpage [[99]%N] [] (Some [99]%N); mkLpage [[100]%N] [] None].
+Proof. exact paginate_reachable_example. Qed.
 
 (* non-vacuity *)
 Example C11_nonvacuous :
@@ -110,3 +299,19 @@ Example C11_nonvacuous :
   /\ follow (S (length names)) names [97]%N [] 2 = [[[97]; [97; 49]]; [[97; 50]; [97; 51]]]%N
   /\ page names [97]%N [] 2 = ([[97]; [97; 49]]%N, true).
 Proof. cbn zeta. split; [apply listing_example|]. split; apply listing_example. Qed.
+
+(* non-vacuity of the delimiter theorems: ascending names with an object that is its own collapsed
+   prefix ("d/") and an empty segment ("e//y"); pages of two under prefix "", pages of one under
+   prefix "e/" *)
+Example C11_delimiter_nonvacuous :
+  let names := [[97]; [98; 47; 49]; [98; 47; 50]; [99]; [100; 47]; [100; 47; 120];
+                [101; 47; 47; 121]; [101; 47; 122]]%N in
+  StronglySorted lex_lt names
+  /\ follow_delim (S (length names)) names [] [47]%N [] 2
+     = [mkLpage [[97]%N] [[98; 47]%N] (Some [98; 47]%N);
+        mkLpage [[99]%N] [[100; 47]%N] (Some [100; 47]%N);
+        mkLpage [] [[101; 47]%N] None]
+  /\ expected_listing names [] [47]%N = ([[97]; [99]]%N, [[98; 47]; [100; 47]; [101; 47]]%N)
+  /\ follow_delim (S (length names)) names [101; 47]%N [47]%N [] 1
+     = [mkLpage [] [[101; 47; 47]%N] (Some [101; 47; 47]%N); mkLpage [[101; 47; 122]%N] [] None].
+Proof. exact paginate_with_delimiter_example. Qed.
